@@ -64,6 +64,7 @@ func genTStep(rt *rapid.T, nc int, hostile bool) TStep {
 		st.P = rapid.SampledFrom([]int{0, 0, 0, 1, 1, 2, 3}).Draw(rt, "p")
 		if op == "Connect" {
 			st.Mapped = rapid.IntRange(0, 3).Draw(rt, "mapped") == 0
+			st.Dup = rapid.IntRange(0, 5).Draw(rt, "dupRandom") == 0
 		}
 		if op == "Connect" && rapid.IntRange(0, 5).Draw(rt, "slowDial") == 0 {
 			st.N = rapid.SampledFrom([]int{1, 3, 10, 29, 31, 45}).Draw(rt, "dialS")
